@@ -59,14 +59,16 @@ def check_probe_agreement(P, ctx, rule='C17.probe-agreement'):
     ctx.check(why is None, rule, 'GC_Probe', site(P.fn('GC_Probe')),
               'the probe distance of a resident is (slot - home) modulo the slot count, non-negative also for entries that wrapped past the end of the table '
               '(evaluated with exact C conversions for table sizes 1..7)', [why] if why else None)
-    # the sweep's own back-shift loop
-    a = backshift_form(P, 'GC_Sweep')
-    ok = a is not None
-    if a:
-        want_tab = {(0, 0): False, (0, 1): False, (0, 5): False, (3, 0): False, (3, 1): True, (3, 5): True}
-        ok = a['next'] == '((1 + J) % arg0->nslots)' and a['table'] == want_tab
-    ctx.check(ok, rule, 'back-shift:GC_Sweep', site(P.fn(a['fn'] if a else 'GC_Sweep')), 'after reclaiming an entry the sweep shifts the following entries back one slot exactly while the next slot is '
-              'occupied and its entry is away from home; the next slot is (j+1) modulo the table size', ['continue table (stored hash, probe distance) -> shifts: %s' % (a['table'] if a else None)])
+    # the sweep's own back-shift: decided by evaluating the sweep (gcmodel.eval_sweep) — afterwards every surviving pointer is findable
+    from . import gcmodel
+    sbad, sunsup, sn = gcmodel.eval_sweep(P)
+    ctx.stats['paths'] += sn
+    fsw = P.fn('GC_Sweep')
+    if sunsup and not sbad:
+        ctx.undecided(rule, 'back-shift:GC_Sweep', site(fsw), 'the sweep leaves the evaluated fragment: ' + sunsup)
+    else:
+        ctx.check(sbad is None, rule, 'back-shift:GC_Sweep', site(fsw), 'after reclaiming entries the sweep leaves every surviving pointer where a lookup from its home slot finds it, '
+                  'with its own root flag (%d registries evaluated)' % sn, [sbad] if sbad else None)
     ctx.floor(rule, 6)
 
 
@@ -137,14 +139,15 @@ def check_entry_moves_whole(P, ctx, rule='C17.entry-moves-whole'):
     report_registry(P, ctx, rule, ('set', 'rem'), texts={
         'set': 'displacing a resident on insertion carries its whole entry along: afterwards every pointer still has its own root flag and mark',
         'rem': 'the back-shift after a removal moves whole entries: afterwards every pointer still has its own root flag and mark, and the vacated slot is empty'})
-    # the sweep's back-shift copies sizeof(struct GCEntry)
-    for f in ('GC_Sweep',):
-        bf = backshift_form(P, f)
-        fn = P.fn(bf['fn'] if bf else f)
-        g = P.cfg(fn)
-        cps = [(n, c) for n in g.live() if n['expr'] is not None for c in ir.calls(n['expr']) if ir.callee_name(c) in ('memcpy', 'memmove') and util.mentions_field(c[2][0], 'entries')]
-        ok = len(cps) == 1 and ir.top_nocast(cps[0][1][2][2]) == ('sizeof', ('type', 'struct GCEntry'))
-        ctx.check(ok, rule, f + ':back-shift', site(fn), 'the back-shift moves sizeof(struct GCEntry) bytes: the whole entry')
+    # the sweep's back-shift moves whole entries: decided by evaluating the sweep (root flags stay with their pointers; a move that is
+    # not one whole entry is refused by the model)
+    from . import gcmodel
+    sbad, sunsup, sn = gcmodel.eval_sweep(P)
+    fsw = P.fn('GC_Sweep')
+    if sunsup and not sbad:
+        ctx.undecided(rule, 'GC_Sweep:back-shift', site(fsw), 'the sweep leaves the evaluated fragment: ' + sunsup)
+    else:
+        ctx.check(sbad is None, rule, 'GC_Sweep:back-shift', site(fsw), 'the sweep\'s back-shift moves whole entries (%d registries evaluated)' % sn, [sbad] if sbad else None)
     # rehash re-inserts each occupied old slot with its own pointer and root flag (evaluated with cint on old tables of 0..4 slots,
     # every occupancy): the insertions go into the new table, each occupied slot once with its own pointer and flag, then the old
     # table — and only it — is freed
